@@ -341,7 +341,8 @@ func e4Run(c e4Case) (res *e4Result) {
 	held := false
 
 	defer func() {
-		// teardown: stop the loop whatever state the case ended in
+		// teardown: stop the loop whatever state the case ended in (the trace ends here)
+		res.Log = log.snapshot()
 		d.release()
 		if connStarted && !disconnected {
 			dctx, dcancel := context.WithTimeout(context.Background(), 5*time.Second)
@@ -355,7 +356,6 @@ func e4Run(c e4Case) (res *e4Result) {
 		for _, bc := range d.connsSnapshot() {
 			bc.mc.Close()
 		}
-		res.Log = log.snapshot()
 	}()
 
 	submit := func(s e4Step) {
